@@ -110,7 +110,7 @@ func (stdin *Stdin) ReadAll() ([]byte, error) {
 read:
 	verifhook.Gate(stdin, "ra.take")
 	stdin.mutex.Lock()
-	stdin.bRead = uint64(len(stdin.buffer))
+	stdin.bRead += uint64(len(stdin.buffer))
 	verifhook.Emit(stdin, "ra.take", "", int64(len(stdin.buffer)), int64(stdin.bRead))
 	b := stdin.buffer
 	stdin.mutex.Unlock()
